@@ -5,6 +5,7 @@
  *   thread <kind> <sp_off> <stack_pages> <name-hex|->     kind: block | spin | nullsp | exiter | vforker
  *   anon <pages> <perms rwx-> <unmap_after 0|1>            anonymous mapping with address-derived fill
  *   file <path> <offset> <pages> <perms>                   file mapping
+ *   fill <anon-idx> <byte>                                 every byte of that mapping set to the value
  *   poke <thread-idx> <off> <anon-idx> <aoff>              store &anon[aoff] at thread's sp+off (after both lines)
  *   anonat <hexaddr> <pages> <perms>                       anonymous mapping at a fixed address
  *   filexat <hexaddr> <hexpath> <offset> <pages> <perms>   file mapping at a fixed address
@@ -166,6 +167,9 @@ int main(int argc, char **argv) {
       close(fd); fl += snprintf(facts + fl, sizeof facts - fl, " file=%lx", (unsigned long)m);
     } else if (sscanf(line, "appmem %u %u %u", &u1, &u2, &u3) == 3) {
       fl += snprintf(facts + fl, sizeof facts - fl, " app=%lx:%u", (unsigned long)(A[u1].p + u2), u3);
+    } else if (sscanf(line, "fill %u %u", &u1, &u2) == 2) {
+      /* every byte of (writable) anonymous mapping u1 set to u2 */
+      if (u1 < (unsigned)NA) memset(A[u1].p, (int)u2, (size_t)A[u1].pages * 4096);
     } else if (sscanf(line, "poke %u %u %u %u", &u1, &u2, &u3, &u4) == 4) {
       /* a pointer into anonymous mapping u3 stored in thread u1's stack, u2 bytes above its stack pointer */
       if (u1 < (unsigned)NT && u3 < (unsigned)NA) *(uint64_t *)(uintptr_t)(T[u1].sp + u2) = (uint64_t)(uintptr_t)(A[u3].p + u4);
@@ -201,7 +205,11 @@ int main(int argc, char **argv) {
   if (main_exits) { if (!fgets(cmd, sizeof cmd, stdin)) return 0; pthread_exit(0); }
   while (fgets(cmd, sizeof cmd, stdin)) {
     unsigned i; if (cmd[0] == 'q') break;
-    if (sscanf(cmd, "s %u", &i) == 1) {
+    if (cmd[0] == 'e' && cmd[1] == ' ') {
+      /* the target becomes a new program image under the same pid (new auxiliary vector, new layout) */
+      char path[512]; if (sscanf(cmd + 2, "%511s", path) == 1) { execl("/proc/self/exe", "tgt", path, (char *)0); }
+      printf("EXECFAILED\n"); fflush(stdout);
+    } else if (sscanf(cmd, "s %u", &i) == 1) {
       /* the target grows: i more blocked threads on fresh stacks */
       int first = NT; printf("SPAWNED");
       for (unsigned k = 0; k < i && NT < MAXT; k++) {
